@@ -723,7 +723,16 @@ func (x *Exec) unop(st *State, fr *Frame, i *ssa.UnOp) Value {
 		}
 		x.nilCheck(st, pv, i.Pos(), "load through nil pointer")
 		x.guardCheck(st, pv, i.Pos(), "read")
-		return st.load(st.heap, pv, true)
+		lv := st.load(st.heap, pv, true)
+		if mv, ok := lv.(MapV); ok && len(pv.Path) > 0 && pv.Path[0].Index == nil {
+			if g := x.p.guardFor(pv.Root); g != nil {
+				if stt, ok := pv.Root.Underlying().(*types.Struct); ok && g.Fields[stt.Field(pv.Path[0].Field).Name()] {
+					mv.Guard, mv.GuardInfo = pv.R, g
+					lv = mv
+				}
+			}
+		}
+		return lv
 	case token.NOT:
 		return Sc{Not(scT(v))}
 	case token.SUB:
@@ -1024,12 +1033,8 @@ func (x *Exec) goEq(a, b Value, t types.Type) *Term {
 		}
 		return And(Eq(av.R, bv.R), Eq(av.I, bv.I))
 	case Ar:
-		bv := b.(Ar)
-		var cs []*Term
-		for k := int64(0); k < av.N; k++ {
-			cs = append(cs, Eq(Select(av.A, Int(k)), Select(bv.A, Int(k))))
-		}
-		return And(cs...)
+		// fixed byte arrays are canonical SMT arrays (zero outside their range): Go == is SMT =
+		return Eq(av.A, b.(Ar).A)
 	case St:
 		bv := b.(St)
 		stt := t.Underlying().(*types.Struct)
